@@ -427,6 +427,7 @@ type sim struct {
 	grown          int
 	nonAccept      int
 	ticks          int
+	idleOps        int // consecutive actions without any application call / chunk request
 }
 
 // onDriver: the logger must never Goexit the driver goroutine. The driver sets driverFlag
@@ -441,6 +442,7 @@ func newSim(env *simcore.Env, cfg simcore.Op) simcore.Sim {
 		rejectedSnap: map[string]bool{}, rejectedFmt: map[uint32]bool{}, lastRefetch: map[uint32]int{},
 		release: make(chan verdict, 1), exited: make(chan struct{})}
 	s.m.reset()
+	env.Count("mode." + s.mode)
 	s.tmp = filepath.Join(env.MkScratch(), "tmp")
 	os.MkdirAll(s.tmp, 0o700)
 	os.Setenv("TMPDIR", s.tmp) // NewReactor ignores its tempDir argument: the chunk queue uses os.TempDir()
@@ -703,7 +705,9 @@ func (s *sim) observe() {
 			capd[i].peer = ps[i]
 		}
 	}
+	s.idleOps++
 	for _, r := range capd {
+		s.idleOps = 0
 		e.Count("probe.chunk_request")
 		e.Logf("req p=%d h=%d f=%d i=%d", r.peer, r.h, r.f, r.i)
 		if _, rej := s.rejectedPeer[peerID(r.peer)]; rej {
@@ -718,6 +722,7 @@ func (s *sim) observe() {
 	}
 	if c := s.pendingCall(); c != nil && !c.seen {
 		c.seen = true
+		s.idleOps = 0
 		s.onCall(c)
 	}
 	if done, _, _, _ := s.result(); done && !s.doneSeen {
